@@ -230,7 +230,7 @@ def build(ctx):
     for t in ("i", "f", "T", "b", "h", "d", "m"):
         for n in ((2, 5) if not thorough else (1, 2, 4, 5, 6)):
             runs.append((t, n, "const", [], []))
-    runs += [("i", 3, "delta", ["b"], ["i"]), ("i", 5, "const", ["i"], ["i"]), ("h", 3, "delta", [], ["T", "i"]), ("b", 3, "const", ["i"], [])]
+    runs += [("i", 3, "delta", ["b"], ["i"]), ("i", 5, "const", ["i"], ["i"]), ("c", 3, "delta", [], ["i"]), ("b", 3, "const", ["i"], [])]
     for t, n, kind, pre, post in runs:
         nm = "r_%s%d%s_%s_%s" % (t, n, kind[0], "".join(pre) or "0", "".join(post) or "0")
         h = ctx.write("gen/%s.c" % nm, compress_text(t, n, kind, pre, post))
